@@ -152,6 +152,9 @@ enum Mode {
     /// t is always t contexts ahead; even threads read the shared contexts, odd
     /// threads their own clones), free-running between barriers
     Skewed,
+    /// every thread executes the SAME (filter, context) cell in a tight loop, so
+    /// that as many executions of one filter as there are threads overlap
+    PileUp,
     /// a freshly compiled, never executed filter set per round (compiled by
     /// thread 0 while the others wait), first executed by all threads at once
     FreshShared,
@@ -163,6 +166,11 @@ fn storm(run: &Run, eng: &Eng, w: &World, mode: Mode, threads: usize, rounds: us
         "miri" => 2,
         "tsan" | "asan" | "dbg" | "valgrind" => 8,
         _ => 48,
+    };
+    let pile_reps: usize = match run.opts.variant.as_str() {
+        "miri" => 2,
+        "tsan" | "asan" | "dbg" | "valgrind" => 40,
+        _ => 400,
     };
     let mismatches = AtomicU64::new(0);
     let execs = AtomicU64::new(0);
@@ -190,6 +198,26 @@ fn storm(run: &Run, eng: &Eng, w: &World, mode: Mode, threads: usize, rounds: us
                             // everybody hits the same (filter, context) at the same time
                             if (ci % 4) == 0 {
                                 barrier.wait();
+                            }
+                            if mode == Mode::PileUp {
+                                if round > 0 {
+                                    continue;
+                                }
+                                barrier.wait();
+                                let c = &w.ctxs[ci];
+                                for _ in 0..pile_reps {
+                                    let got = f.execute(c);
+                                    n += 1;
+                                    if got != Ok(w.baseline[fi][ci]) {
+                                        mismatches.fetch_add(1, Ordering::Relaxed);
+                                        let mut fb = first_bad.lock().unwrap();
+                                        if fb.is_none() {
+                                            *fb = Some(json!({"filter": w.filters[fi].0, "context": ci, "thread": tid,
+                                                "sequential": w.baseline[fi][ci], "concurrent": format!("{:?}", got)}));
+                                        }
+                                    }
+                                }
+                                continue;
                             }
                             if mode == Mode::Skewed {
                                 let nctx = w.ctxs.len();
@@ -493,7 +521,7 @@ pub fn run(run: &Run) {
         12
     };
     let mut idx = 0u64;
-    for mode in [Mode::SharedBoth, Mode::SharedFilter, Mode::Recompile, Mode::Skewed, Mode::FreshShared] {
+    for mode in [Mode::SharedBoth, Mode::SharedFilter, Mode::Recompile, Mode::Skewed, Mode::PileUp, Mode::FreshShared] {
         for &t in &thread_counts {
             if run.opts.wants("storm") {
                 if let Some(only) = run.opts.only_index("storm") {
